@@ -21,7 +21,7 @@ COQ = "machine-checked proof in Coq + model/implementation correspondence evalua
 CORR = "Coq model of the code + correspondence and property predicates evaluated by vm_compute (theorems pending for the full statement)"
 
 CHECKS = {
-    "C01": C("exploration", CORR, "Step model (all eight step types: apply/get_map/invert/map/merge) compared with the implementation on adversarial primitive steps (wrap-like and lift-like replace-around steps with wrappers that cannot hold the gap, JSON round-tripped steps) and on every step the transform API emits; the predicate is the Coq validity checker `check` (= C07's `valid`, theorem check_iff) on the implementation's result, plus 'no internal error class'. Silent invalid results of replace-around steps with a closed wrapper are a recorded upstream finding."),
+    "C01": C("proof", COQ, "Theorems (coq/Properties/C01.v) for every schema, document, range and slice: Node.replace and ReplaceStep.apply return a VALID document whenever they return one, given a valid document and a slice whose open sides are non-leaf nodes with canonical marks and whose other nodes are valid (OpenOK; closed slice = valid nodes; the empty slice needs nothing) - proved through the whole rebuild (replace_outer, two/three-way, add_range, close, prepare_slice, resolve). The other clauses (refusal instead of exception; the slices that replace-around, mark and node steps build before calling Node.replace) are evaluated per case: Step model (all eight step types: apply/get_map/invert/map/merge) compared with the implementation on adversarial primitive steps (wrap-like and lift-like replace-around steps with wrappers that cannot hold the gap, JSON round-tripped steps) and on every step the transform API emits; the predicate is the Coq validity checker `check` (= C07's `valid`, theorem check_iff) on the implementation's result, plus 'no internal error class'. Silent invalid results of replace-around steps with a closed wrapper are a recorded upstream finding (the wrapper is an invalid closed node, outside the theorem's hypothesis)."),
     "C02": C("exploration", CORR, "Function-for-function Gallina model of fragment/node cut, resolve, slice and replace (replace_outer, two/three-way, add_range, close, prepare_slice) agrees with the implementation on every observable; the flat-token law (result tokens = old[:from] ++ inner tokens of slice ++ old[to:], size law, open depths of cuts, normalisation, validity, re-insertion gives back an equal document, failures only as ReplaceError / split surrogate pair) is evaluated in Coq on the implementation's output for all sampled (doc, range, slice) triples."),
     "C03": C("exploration", CORR, "For every applied step (primitive and emitted by every high-level operation): size delta = sum(new-old) over the map's ranges and every old token outside the ranges is found at the mapped position (mark/attr steps: same token shape), evaluated in Coq over all positions. Replace-around steps with an empty gap are a recorded upstream finding."),
     "C04": C("proof", COQ, "Theorems (coq/Properties/C04.v): the recorded steps/docs/maps of a transform stay aligned and replay exactly over ANY sequence of attempted steps, including refused ones (history_Inv, history_replay). Exact single-step undo, inverse maps and whole-history undo are evaluated in Coq on random histories of up to 12 transform operations and on primitive steps (exploration strength for those clauses)."),
